@@ -115,9 +115,20 @@ class Ctx:
                 # the path dependencies on /repo/<crate>
                 crates = [d for d in sorted(os.listdir(alt)) if os.path.exists(os.path.join(alt, d, "Cargo.toml"))]
                 cmd += ["--config", "paths=[%s]" % ",".join('"%s"' % os.path.join(alt, d) for d in crates)]
+            # the plugin (cdylib of chess-bot) is uplifted to a file name without a hash: after a switch
+            # of the source checkout cargo may consider both units fresh and leave the other one's
+            # library in place, so force that one crate to be rebuilt when the checkout changes
+            eff = os.path.abspath(alt) if alt else "/repo"
+            mark = os.path.join(HARNESS, "target", ".verif_repo")
+            last = open(mark).read().strip() if os.path.exists(mark) else "/repo"
+            if last != eff:
+                subprocess.run(["cargo", "clean", "--profile", "chk", "-p", "chess-bot", "--offline"], cwd=HARNESS,
+                               stdout=subprocess.DEVNULL, stderr=subprocess.DEVNULL)
             p = subprocess.run(cmd, cwd=HARNESS,
                                stdout=subprocess.PIPE, stderr=subprocess.STDOUT, text=True,
                                env=dict(os.environ, CARGO_NET_OFFLINE="true"))
+            if p.returncode == 0 and os.path.isdir(os.path.dirname(mark)):
+                open(mark, "w").write(eff)
             if p.returncode != 0:
                 sys.stderr.write(p.stdout[-6000:])
                 raise ToolError("harness build failed (does /repo still compile?)")
